@@ -7,6 +7,7 @@ import random
 import common as C
 import hist
 import progs as P
+import values as V
 
 COQ_FILES = ("Base/Bytes.v", "Base/Sha256.v", "L0_Hash/DdsHash.v", "L1_Args/ArgCtx.v", "L3_Sig/Program.v", "L3_Sig/Sig.v",
              "L3_Sig/RunSig.v", "L4_Eval/DdsEval.v", "L4_Eval/RunEval.v", "L4_Eval/EvalProofs.v", "L3_Sig/SigTree.v", "L3_Sig/SigTreeProofs.v", "L4_Eval/SoundnessDefs.v", "L4_Eval/SoundnessA.v", "L4_Eval/Soundness.v",
@@ -38,7 +39,7 @@ def gen_history(rng, n_steps):
             cands = [(m, v) for (m, n) in P.reachable(cur, *cur["root"]) for v in P.find_func(cur, m, n)["reads"]]
             if cands:
                 m, v = rng.choice(cands)
-                new = rng.choice([x for x in P.VAR_VALUES if x != cur["modules"][m]["vars"][v]])
+                new = rng.choice([x for x in P.VAR_VALUES if V.canon(x) != V.canon(cur["modules"][m]["vars"][v])])
                 events.append(("act", {"a": "setvar", "mod": m, "name": v, "value": new}))
                 cur = copy.deepcopy(cur)
                 cur["modules"][m]["vars"][v] = new
